@@ -23,13 +23,13 @@ def main():
     prop = meta["property"]
     assert sh(f"git -C {REPO} status --porcelain --untracked-files=no").stdout.strip() == "", "/repo not clean"
     res = {}
-    r = sh(f"cd {d} && PYTHONPATH={REPO}/src timeout 300 {PY} demo.py")
+    r = sh(f"cd {d} && PYTHONPATH={REPO}/src timeout 300 {PY} -B demo.py")
     res["demo_clean_exit"] = r.returncode
     a = sh(f"git -C {REPO} apply {d/'patch.diff'}")
     if a.returncode != 0:
         print("patch does not apply:", a.stderr); sys.exit(2)
     try:
-        r = sh(f"cd {d} && PYTHONPATH={REPO}/src timeout 300 {PY} demo.py")
+        r = sh(f"cd {d} && PYTHONPATH={REPO}/src timeout 300 {PY} -B demo.py")
         res["demo_patched_exit"] = r.returncode
         res["demo_patched_tail"] = (r.stdout + r.stderr)[-600:]
         if "--suite" in sys.argv:
@@ -39,7 +39,11 @@ def main():
         res["checks"] = {}
         for c in checks:
             t0 = time.time()
+            ev = VERIF / "evidence" / f"{c}.json"          # evidence must describe the UNCHANGED tree: put it back afterwards
+            saved = ev.read_text() if ev.exists() else None
             r = sh(f"cd {VERIF} && VERIF_SEED={meta.get('seed', 0)} ./check {c} --tier quick")
+            if saved is not None:
+                ev.write_text(saved)
             viol = [l for l in r.stdout.splitlines() if l.startswith("VIOLATION")]
             res["checks"][c] = {"exit": r.returncode, "violation_lines": viol[:3], "wall_s": round(time.time() - t0, 1),
                                 "summary": r.stdout.strip().splitlines()[-1:] }
